@@ -267,7 +267,7 @@ func genExtra(t *rapid.T, i int) fsx.Tree {
 		name := fmt.Sprintf("extra%d", j)
 		if rapid.IntRange(0, 3).Draw(t, "awkwardname") == 0 {
 			// names that merely contain dots, spaces or non-ASCII letters
-			name = rapid.SampledFrom([]string{"..data", "v1..v2.diff", "...", "with space", "-dash", "ünï", "..", "a..", ".hidden"}).Draw(t, "awkward") + fmt.Sprint(j)
+			name = rapid.SampledFrom([]string{"..data", "v1..v2.diff", "...", "with space", "-dash", "ünï", "..", "a..", ".hidden", "back\\slash", "tmpl\\esc.tmpl"}).Draw(t, "awkward") + fmt.Sprint(j)
 		}
 		switch rapid.IntRange(0, 26).Draw(t, "extrakind") % 9 {
 		case 0:
